@@ -596,3 +596,25 @@ impl StorageTxn for Txn<'_> {
     { unimplemented!() }
 
 }
+
+// ---- the storage itself ----------------------------------------------------------------------------------------------------------
+/// `DEFAULT_BASE_VERSION` (src/storage/mod.rs: `Uuid::nil()`, an exec call in a const, which Verus rejects): stand-in constant
+pub const DEFAULT_BASE_VERSION: Uuid = Uuid(0); //@
+impl InMemoryStorage {
+//@extract src/storage/inmemory.rs :: impl InMemoryStorage :: fn new
+    pub fn new() -> (r: InMemoryStorage)
+        ensures
+            //@ob C16 InMemoryStorage::new.an-empty-store:-no-tasks,-no-operations,-nil-base-version,-working-set-[None]
+            r.data.wf() && is_empty_view(r.data.view_of()) && r.data.view_of().synced.len() == 0,
+{
+        InMemoryStorage {
+            data: Data {
+                tasks: HashMap::new(),
+                base_version: DEFAULT_BASE_VERSION,
+                operations: vec![],
+                working_set: vec![None],
+            },
+        }
+    }
+//@end
+}
